@@ -11,7 +11,8 @@ import sys
 import tempfile
 import time
 
-SRC = "/tmp/seed/out"
+SRC = os.environ.get("SEED_SRC", "/tmp/seed/out")
+PREFIX = os.environ.get("SEED_PREFIX", "")
 DST = "/verif/seeded"
 PY = "/venv/bin/python"
 
@@ -29,7 +30,7 @@ def main():
             src = os.path.join(SRC, pid, ab)
             if not os.path.exists(os.path.join(src, "patch.diff")):
                 continue
-            name = f"{pid}-{ab}"
+            name = f"{PREFIX}{pid}-{ab}"
             dst = os.path.join(DST, name)
             os.makedirs(dst, exist_ok=True)
             meta = {"property": pid, "seed": ab, "source": "independent sub-agent given only the property text and a scratch worktree"}
